@@ -330,6 +330,17 @@ func Drive(cfg *Config, fn RunFn) int {
 		// new violation: minimise, verify replay, write file, stop this process.
 		used := tape.Used()
 		class := out.V.Class
+		if out.V.Tags["nominimise"] == "1" {
+			// re-running would hang again: report the full tape as it is
+			rf := &ReplayFile{Prop: cfg.Prop, Engine: cfg.Engine, Scenario: cfg.Scenario, Seed: cfg.Seed, Run: run, Tier: cfg.Tier,
+				Tape: used, OrigLen: len(used), V: out.V, LogHash: out.LogHash, Tree: cfg.Tree, Opts: cfg.Opts}
+			path := fmt.Sprintf("%s/%s-%s-%d-%d-hang.json", cfg.ReplayDir, cfg.Prop, cfg.Scenario, cfg.Seed, run)
+			b, _ := json.MarshalIndent(rf, "", " ")
+			os.WriteFile(path, b, 0o644)
+			res.Violations = append(res.Violations, &ReplayRef{Path: path, V: out.V, Run: run})
+			code = 1
+			break
+		}
 		min := Minimise(used, class, 300, 25*time.Second, func(c []uint32) *Violation {
 			o := fn(ReplayTape(c), false)
 			if o.V != nil && known.Match(o.V) != nil {
